@@ -27,6 +27,7 @@ type Finding struct {
 
 // Explorer runs harnesses over a pool of workers.
 type Explorer struct {
+	Property  string // the property being checked (scopes open known findings); "" = all
 	Prog      *Program
 	Workers   int
 	Solver    string
@@ -80,9 +81,16 @@ func (e *Explorer) Start() error {
 	}
 	cfg := e.Cfg
 	cfg.OpenFindings = map[string]bool{}
+	cfg.ForeignFindings = map[string]bool{}
 	for id, f := range e.Findings {
 		if f.Status == "open" {
-			cfg.OpenFindings[id] = true
+			if e.Property == "" || f.Property == e.Property {
+				cfg.OpenFindings[id] = true
+			} else {
+				// an open finding of ANOTHER property: its region is that property's obligation; a
+				// check of this property that runs the same harness leaves the region out
+				cfg.ForeignFindings[id] = true
+			}
 		}
 	}
 	t0 := time.Now()
